@@ -12,6 +12,7 @@ mod parent;
 mod script;
 mod selftest;
 mod shadow;
+mod shadow_iter;
 mod trace;
 
 #[global_allocator]
